@@ -1,13 +1,23 @@
-(* C18 - combining results.  Only statements closed by [exact] and their assumptions. *)
+(* C18 - combining results conserves counts and re-indexes by name and identity.
+   Only statements (spelled out in full) closed by [exact], their assumptions, and non-vacuity examples.
+   Model: coq/theories/Combine/Model.v (devs_merge, couples_merge, bd_merge, common_merge, literal_merge);
+   specification functions: coq/theories/Combine/Spec.v.  The identity table computed by
+   identity.MergeReversedDictsIdentities (property C16) is an ARGUMENT [people]/[merged] of the models; what
+   the theorems need to know about it is the boolean [wf_table_b], which the replay driver evaluates on the
+   table of every real call. *)
 From Coq Require Import List ZArith Bool.
-From Herc Require Import Combine.Model Combine.Spec Combine.DevsProofs Combine.CommonProofs.
+From Herc Require Import Combine.Model Combine.Spec Combine.DevsProofs Combine.CommonProofs
+     Combine.LiteralProofs Combine.CouplesByName Combine.BurndownProofs Combine.RowsProofs.
 Import ListNotations.
 Open Scope Z_scope.
 
-(* Developer statistics: whenever DevsAnalysis.MergeResults returns a result, every figure (commits, added,
-   removed, changed lines, and the same per language) stored for tick t and developer k is the sum of the
-   input figures whose tick, shifted by the offset of their result, is t and whose developer is sent to k by
-   the identity table; the totals over all ticks and developers are the sums of the inputs' totals. *)
+(* ------------------------------------------------------------------------------------------------------ *)
+(* Developer statistics.  Whenever DevsAnalysis.MergeResults returns a result (it returns an error for
+   different tick sizes and panics for tick size 0 or a developer index outside the people list), for EVERY
+   identity table: each figure f (commits, added/removed/changed lines, and the same per language) stored
+   for tick t and developer k is the sum of the input figures whose tick, shifted by the offset of their
+   result, is t and whose developer the table sends to k; the totals over all ticks and developers are the
+   sums of the totals of the inputs; the result's maps have distinct keys (so [out_cell] IS the stored cell). *)
 Theorem C18_devs_conserve : forall people merged r1 r2 c1 c2 m,
   devs_merge people merged r1 r2 c1 c2 = Ok m ->
   exists o1 o2,
@@ -20,3 +30,239 @@ Theorem C18_devs_conserve : forall people merged r1 r2 c1 c2 m,
     dv_maps_ok (dr_ticks m) = true.
 Proof. exact devs_merge_conserve. Qed.
 Print Assumptions C18_devs_conserve.
+
+(* Tick alignment by the begin dates: with a positive tick size d the result that begins earlier keeps its
+   ticks and the other one is shifted by the number of whole ticks between the two begin times floored to
+   multiples of d (counted from Go's zero time). *)
+Theorem C18_devs_alignment : forall b1 b2 d,
+  0 < d ->
+  tick_offsets b1 b2 d =
+  Ok (unix_to_abs b1 / d - Z.min (unix_to_abs b1 / d) (unix_to_abs b2 / d),
+      unix_to_abs b2 / d - Z.min (unix_to_abs b1 / d) (unix_to_abs b2 / d)).
+Proof. exact tick_offsets_spec. Qed.
+Print Assumptions C18_devs_alignment.
+
+(* The merge is defined on every pair of results with equal non-zero tick size and developer indices inside
+   their people lists (or the unmatched-author index). *)
+Theorem C18_devs_defined : forall people merged r1 r2 c1 c2,
+  dr_ticksize r1 = dr_ticksize r2 -> dr_ticksize r1 <> 0 ->
+  devs_in_range (dr_people r1) (dr_ticks r1) = true -> devs_in_range (dr_people r2) (dr_ticks r2) = true ->
+  exists m, devs_merge people merged r1 r2 c1 c2 = Ok m.
+Proof. exact devs_merge_defined. Qed.
+Print Assumptions C18_devs_defined.
+
+(* ------------------------------------------------------------------------------------------------------ *)
+(* Couples.  Whenever CouplesAnalysis.MergeResults returns (file lists without duplicates), for EVERY identity
+   table: the merged file list is the duplicate-free union; FilesLines adds up by file NAME; every cell (a, b)
+   of the files matrix is the sum of the input cells whose row and column file NAMES are at positions a and b
+   of the merged file list; every cell of the people matrix is the sum of the input cells whose row and column
+   developers the table sends to a and b (index = number of merged developers: the unmatched developer);
+   PeopleFiles of merged developer w is the strictly sorted union of the re-indexed file sets of the input
+   developers sent to w. *)
+Theorem C18_couples_sum : forall people merged r1 r2 m,
+  NoDup (cr_files r1) -> NoDup (cr_files r2) ->
+  couples_merge people merged r1 r2 = Ok m ->
+  let mfiles := cr_files m in
+  let fi1 := name_index mfiles (cr_files r1) in
+  let fi2 := name_index mfiles (cr_files r2) in
+  let pi1 := pidx0 people (cr_people r1) merged in
+  let pi2 := pidx0 people (cr_people r2) merged in
+  cr_people m = merged /\
+  NoDup mfiles /\ (forall s, In s mfiles <-> In s (cr_files r1) \/ In s (cr_files r2)) /\
+  length (cr_fl m) = length mfiles /\
+  (forall name, In name mfiles ->
+     lines_of mfiles (cr_fl m) name =
+     lines_of (cr_files r1) (cr_fl r1) name + lines_of (cr_files r2) (cr_fl r2) name) /\
+  length (cr_fm m) = length mfiles /\ forallb (keys_nodup Z.eqb) (cr_fm m) = true /\
+  (forall a b, out_get (cr_fm m) a b = rows_sum fi1 a b (cr_fm r1) 0 + rows_sum fi2 a b (cr_fm r2) 0) /\
+  length (cr_pm m) = S (length merged) /\ forallb (keys_nodup Z.eqb) (cr_pm m) = true /\
+  (forall a b, out_get (cr_pm m) a b = rows_sum pi1 a b (cr_pm r1) 0 + rows_sum pi2 a b (cr_pm r2) 0) /\
+  length (cr_pf m) = length merged /\
+  (forall w, strictly_sorted (nthZ (cr_pf m) w []) = true) /\
+  (forall w x, In x (nthZ (cr_pf m) w []) <->
+               In x (pf_members (pfidx0 people (cr_people r1)) fi1 w (cr_pf r1) 0) \/
+               In x (pf_members (pfidx0 people (cr_people r2)) fi2 w (cr_pf r2) 0)).
+Proof. exact couples_merge_by_name. Qed.
+Print Assumptions C18_couples_sum.
+
+(* identity.MergeReversedDictsLiteral (the file table): defined for a duplicate-free first list; the merged
+   list is the duplicate-free union, a name's Final index is its position there, First/Second are -1 exactly
+   for names the list does not contain and otherwise positions holding that name. *)
+Theorem C18_file_table : forall rd1 rd2,
+  NoDup rd1 ->
+  exists tab mrd,
+    literal_merge rd1 rd2 = Ok (tab, mrd) /\
+    mrd = map fst tab /\ NoDup mrd /\
+    (forall s, In s mrd <-> In s rd1 \/ In s rd2) /\
+    (forall s m, lookup tab s = Some m ->
+       nth_error mrd (Z.to_nat (Final m)) = Some s /\ 0 <= Final m /\
+       first_ok rd1 s m /\ second_ok rd2 s m) /\
+    (forall s, In s rd1 \/ In s rd2 -> exists m, lookup tab s = Some m).
+Proof. exact literal_merge_spec. Qed.
+Print Assumptions C18_file_table.
+
+(* ------------------------------------------------------------------------------------------------------ *)
+(* Burndown: which input developers the history and the interaction row of a merged developer come from.
+   The clause of the property is FALSE of the code as it is (finding F8): MergeResults looks the MERGED
+   identity string up in the table, which is keyed by INPUT identity strings.  What holds:
+
+   C18_people_selection: for a well-formed identity table in which every input identity is spelled exactly
+   like the merged identity it belongs to ([literal_b]: identities are identical or have nothing in common),
+   for every opaque mergeMatrices, the history of every merged developer w is mergeMatrices applied to exactly
+   the histories of the members of w (the empty matrix for a result that has no member of w). *)
+Theorem C18_people_selection : forall (mergeM : matrix -> matrix -> matrix) people merged r1 r2 m,
+  wf_table_b people (br_people r1) (br_people r2) merged = true ->
+  literal_b people (br_people r1) merged = true -> literal_b people (br_people r2) merged = true ->
+  bd_merge mergeM people merged r1 r2 = Ok m ->
+  nonempty (br_ph r1) || nonempty (br_ph r2) = true ->
+  length (br_ph m) = length merged /\
+  forall w, 0 <= w < lenZ merged ->
+    exists m1 m2, nth_error (br_ph m) (Z.to_nat w) = Some (mergeM m1 m2) /\
+                  hist_of (br_ph r1) (members people (br_people r1) w) m1 /\
+                  hist_of (br_ph r2) (members people (br_people r2) w) m2.
+Proof. exact people_history_exact. Qed.
+Print Assumptions C18_people_selection.
+
+(* The same for the interaction matrix (both matrices present, one row of n+2 cells per developer): under the
+   same hypotheses every cell of row w is the sum over the members of w of their cells - columns 0 (own lines)
+   and 1 (removed by unknown authors) kept, column 2+k' collecting the columns 2+k of the members k of merged
+   developer k'. *)
+Theorem C18_interaction_rows : forall people merged r1 r2 out,
+  wf_table_b people (br_people r1) (br_people r2) merged = true ->
+  literal_b people (br_people r1) merged = true -> literal_b people (br_people r2) merged = true ->
+  nonempty (br_pm r2) = true ->
+  rect_b (length (br_people r1)) (br_pm r1) = true -> rect_b (length (br_people r2)) (br_pm r2) = true ->
+  bd_people_matrix people merged r1 r2 = Ok out ->
+  length out = length merged /\
+  forall w c, cellZ out w c = pm_spec_cell people (br_people r1) (br_people r2) (br_pm r1) (br_pm r2) w c.
+Proof. exact people_rows_exact. Qed.
+Print Assumptions C18_interaction_rows.
+
+(* The selection test itself: under the hypotheses it is exact for every merged developer ... *)
+Theorem C18_people_selection_exact : forall people rd1 rd2 merged,
+  wf_table_b people rd1 rd2 merged = true ->
+  literal_b people rd1 merged = true -> literal_b people rd2 merged = true ->
+  forall w, 0 <= w < lenZ merged -> sel_exact_b people rd1 rd2 merged w = true.
+Proof. exact selection_exact_b. Qed.
+Print Assumptions C18_people_selection_exact.
+
+(* ... and conversely the EXACT condition under which the clause fails: with a well-formed table the selection
+   for merged developer w is right only if every member of w is spelled like the merged identity, or - by
+   accident - the merged spelling is no input identity at all and the members are precisely position 0 of
+   both lists (the zero value {0,0,0} of the missing map entry points at them). *)
+Theorem C18_people_selection_only_if : forall people rd1 rd2 merged w,
+  wf_table people rd1 rd2 merged -> 0 <= w < lenZ merged ->
+  sel_exact_b people rd1 rd2 merged w = true ->
+  ((forall i, In i (members people rd1 w) -> nthZ rd1 i [] = nthZ merged w []) /\
+   (forall i, In i (members people rd2 w) -> nthZ rd2 i [] = nthZ merged w []))
+  \/ (lookup people (nthZ merged w []) = None /\ members people rd1 w = [0] /\ members people rd2 w = [0]).
+Proof. exact selection_exact_only_if. Qed.
+Print Assumptions C18_people_selection_only_if.
+
+(* The refutation (F8), with the table MergeReversedDictsIdentities really returns for
+   ["bob|b@y"; "ann|a@x"] and ["ann|c@z"]: merged developer 1 = "ann|a@x|c@z" has the members 1 (first list)
+   and 0 (second list), the code selects 0 and 0: for every mergeMatrices and all histories, the history of
+   "ann" is computed from the history of "bob|b@y". *)
+Theorem C18_people_selection_refuted :
+  wf_table_b w_people w_rd1 w_rd2 w_merged = true /\
+  members w_people w_rd1 1 = [1] /\ members w_people w_rd2 1 = [0] /\
+  selected w_people (nthZ w_merged 1 []) = (Some 0, Some 0) /\
+  sel_exact_b w_people w_rd1 w_rd2 w_merged 1 = false /\
+  forall (mergeM : matrix -> matrix -> matrix) (hbob hann1 hann2 : matrix) r1 r2 m,
+    br_people r1 = w_rd1 -> br_people r2 = w_rd2 ->
+    br_ph r1 = [hbob; hann1] -> br_ph r2 = [hann2] ->
+    bd_merge mergeM w_people w_merged r1 r2 = Ok m ->
+    nth_error (br_ph m) 1 = Some (mergeM hbob hann2).
+Proof. exact people_selection_refuted. Qed.
+Print Assumptions C18_people_selection_refuted.
+
+(* The remaining fields of the merged burndown result. *)
+Theorem C18_burndown_summary : forall (mergeM : matrix -> matrix -> matrix) people merged r1 r2 m,
+  bd_merge mergeM people merged r1 r2 = Ok m ->
+  br_ticksize r1 = br_ticksize r2 /\
+  br_people m = merged /\
+  br_ticksize m = (if br_ticksize r1 =? 0 then DefaultTickSize else br_ticksize r1) /\
+  br_sampling m = Z.min (br_sampling r1) (br_sampling r2) /\
+  br_granularity m = Z.min (br_granularity r1) (br_granularity r2) /\
+  br_global m = (if nonempty (br_global r1) || nonempty (br_global r2)
+                 then mergeM (br_global r1) (br_global r2) else []).
+Proof. exact bd_merge_summary. Qed.
+Print Assumptions C18_burndown_summary.
+
+(* ------------------------------------------------------------------------------------------------------ *)
+(* Common summary: earliest begin, latest end, sums of the commit counts and run times; Merge panics exactly
+   when the receiver has no end time or the argument no begin time (or a nil per-item map would be written). *)
+Theorem C18_common : forall c1 c2 c,
+  common_merge c1 c2 = Ok c ->
+  c_begin c = Z.min (c_begin c1) (c_begin c2) /\
+  c_end c = Z.max (c_end c1) (c_end c2) /\
+  c_commits c = c_commits c1 + c_commits c2 /\
+  c_runtime c = c_runtime c1 + c_runtime c2 /\
+  c_end c1 <> 0 /\ c_begin c2 <> 0.
+Proof. exact common_merge_ok. Qed.
+Print Assumptions C18_common.
+
+Theorem C18_common_panics : forall c1 c2,
+  c_end c1 = 0 \/ c_begin c2 = 0 -> common_merge c1 c2 = Panic.
+Proof. exact common_merge_panics. Qed.
+Print Assumptions C18_common_panics.
+
+Theorem C18_common_defined : forall c1 c2,
+  c_end c1 <> 0 -> c_begin c2 <> 0 ->
+  (c_items c1 <> None \/ c_items c2 = None \/ c_items c2 = Some []) ->
+  exists c, common_merge c1 c2 = Ok c.
+Proof. exact common_merge_defined. Qed.
+Print Assumptions C18_common_defined.
+
+(* ------------------------------------------------------------------------------------------------------ *)
+(* Non-vacuity: concrete results on which the hypotheses hold and the merges succeed.
+   Identities: a = "a", b = "b", c = "c"; first list [a; b], second list [b; c]; merged [a; b; c]. *)
+Definition ex_a : name := [97].  Definition ex_b : name := [98].  Definition ex_c : name := [99].
+Definition ex_go : name := [71;111].
+Definition ex_people : table := [(ex_a, mkMI 0 0 (-1)); (ex_b, mkMI 1 1 0); (ex_c, mkMI 2 (-1) 1)].
+Definition ex_merged := [ex_a; ex_b; ex_c].
+Definition ex_day : Z := 86400000000000.
+Definition ex_c1 := mkC 1500000000 1500900000 10 5 (Some []).
+Definition ex_c2 := mkC 1500300000 1501000000 7 6 (Some []).
+
+Definition ex_dv1 := mkDR [(0, [(0, mkDT 1 (mkLS 10 2 3) [(ex_go, mkLS 10 2 3)]); (1, mkDT 2 (mkLS 4 0 0) [])]);
+                           (5, [(1, mkDT 1 (mkLS 1 1 1) []); (AuthorMissing, mkDT 1 (mkLS 0 0 9) [])])]
+                          [ex_a; ex_b] ex_day.
+Definition ex_dv2 := mkDR [(2, [(0, mkDT 3 (mkLS 7 7 7) [(ex_go, mkLS 1 0 0)]); (1, mkDT 1 (mkLS 2 0 0) [])])]
+                          [ex_b; ex_c] ex_day.
+Example C18_ex_devs : exists m,
+  devs_merge ex_people ex_merged ex_dv1 ex_dv2 ex_c1 ex_c2 = Ok m /\
+  tick_offsets (c_begin ex_c1) (c_begin ex_c2) ex_day = Ok (0, 3) /\
+  dv_conserve_b ex_people ex_merged ex_dv1 ex_dv2 0 3 m = true /\
+  out_cell FCommits 5 1 (dr_ticks m) = 4 /\ dv_total FCommits (dr_ticks m) = 9 /\
+  dv_total (FLang ex_go LAdded) (dr_ticks m) = 11.
+Proof. eexists. split; [vm_compute; reflexivity|]. repeat split; vm_compute; reflexivity. Qed.
+
+Definition ex_f : name := [102].  Definition ex_g : name := [103].  Definition ex_h : name := [104].
+Definition ex_cp1 := mkCR [[(0, 3); (1, 1)]; [(0, 1); (1, 2)]; [(2, 1)]] [[0; 1]; [1]] [[(0, 5); (1, 2)]; [(0, 2); (1, 4)]]
+                          [100; 200] [ex_f; ex_g] [ex_a; ex_b].
+Definition ex_cp2 := mkCR [[(0, 1)]; [(1, 6); (2, 1)]; []] [[0]; [0; 1]] [[(0, 1); (1, 1)]; [(0, 1); (1, 9)]]
+                          [210; 50] [ex_g; ex_h] [ex_b; ex_c].
+Example C18_ex_couples : exists m,
+  couples_merge ex_people ex_merged ex_cp1 ex_cp2 = Ok m /\
+  cp_sum_b ex_people ex_merged ex_cp1 ex_cp2 m = true /\
+  cr_files m = [ex_f; ex_g; ex_h] /\ cr_fl m = [100; 410; 50] /\
+  out_get (cr_fm m) 1 1 = 5 /\ out_get (cr_pm m) 1 1 = 3 /\ nthZ (cr_pf m) 1 [] = [1].
+Proof. eexists. split; [vm_compute; reflexivity|]. repeat split; vm_compute; reflexivity. Qed.
+
+Definition ex_bd1 := mkBR [[1048576]] [[[1]]; [[2]]] [[5; 1; 0; 2]; [3; 0; 1; 0]] [ex_a; ex_b] ex_day 1 1.
+Definition ex_bd2 := mkBR [[2097152]] [[[1024]]; [[2048]]] [[7; 0; 0; 4]; [1; 1; 2; 0]] [ex_b; ex_c] ex_day 1 1.
+Example C18_ex_burndown : exists m,
+  wf_table_b ex_people (br_people ex_bd1) (br_people ex_bd2) ex_merged = true /\
+  literal_b ex_people (br_people ex_bd1) ex_merged = true /\
+  literal_b ex_people (br_people ex_bd2) ex_merged = true /\
+  rect_b 2 (br_pm ex_bd1) = true /\ rect_b 2 (br_pm ex_bd2) = true /\
+  bd_merge code_merge ex_people ex_merged ex_bd1 ex_bd2 = Ok m /\
+  map code (br_ph m) = [1; 1026; 2048] /\
+  br_pm m = [[5; 1; 0; 2; 0]; [10; 0; 1; 0; 4]; [1; 1; 0; 2; 0]] /\
+  pm_rows_b ex_people ex_merged ex_bd1 ex_bd2 (br_pm m) = true.
+Proof. eexists. repeat split; vm_compute; reflexivity. Qed.
+
+Example C18_ex_common : exists c,
+  common_merge ex_c1 ex_c2 = Ok c /\ c = mkC 1500000000 1501000000 17 11 (Some []).
+Proof. eexists. split; vm_compute; reflexivity. Qed.
